@@ -198,6 +198,23 @@ static void seeding() {
       e1 = gen(w1, 3); e2 = gen(w1, 3); e3 = gen(w2, 3); out.evaluations += 2;
       if (e1 != e2) out.viol("seeding:same-seed-not-reproducible", J().s("seed", "{1,2,3}"));
       if (e1 == e3) out.viol("seeding:different-seeds-same-output", J().s("seed", "{1,2,3} vs {1,2,4}")); }
+    // re-seeding must reset *all* sampler state: sessions of 1, 2, 3, ... encryptions (odd and even numbers of Gaussian
+    // draws) replayed after a re-seed give identical ciphertexts, whatever was drawn before the re-seed
+    { LweParams *P = new_LweParams(20, ldexp(1., -15), 0.25); LweKey *K = new_LweKey(P); LweSample *c = new_LweSample(P);
+      auto session = [&](uint64_t sd, int nb) { seed_library(sd); lweKeyGen(K); std::string o; for (int i = 0; i < nb; i++) { lweSymEncrypt(c, 1 << 29, ldexp(1., -15), K); o.append((const char *) c->a, 80); o.append((const char *) &c->b, 4); } return o; };
+      for (int nb = 1; nb <= 6; nb++) {
+          std::string a1 = session(777 + nb, nb), a2 = session(777 + nb, nb);
+          out.evaluations++;
+          if (a1 != a2) out.viol("seeding:same-seed-not-reproducible", J().i("encryptions_per_session", nb).s("note", "state left over from before the re-seed influences the replay"));
+      }
+      // and with TLWE noise drawn in between (different call mix before the re-seed)
+      { TLweParams *TP = new_TLweParams(1024, 1, ldexp(1., -25), 0.25); TLweKey *TK = new_TLweKey(TP); TLweSample *tc = new_TLweSample(TP);
+        std::string b1 = session(999, 3); seed_library(5); tLweKeyGen(TK); tLweSymEncryptZero(tc, ldexp(1., -25), TK); lweSymEncrypt(c, 0, ldexp(1., -15), K);
+        std::string b2 = session(999, 3); out.evaluations++;
+        if (b1 != b2) out.viol("seeding:same-seed-not-reproducible", J().s("note", "history before the re-seed influences the replay"));
+        delete_TLweSample(tc); delete_TLweKey(TK); delete_TLweParams(TP); }
+      delete_LweSample(c); delete_LweKey(K); delete_LweParams(P); }
+    out.cell("seeding:replay-after-odd-and-even-draw-counts");
     out.cell("seeding:reproducible"); out.cell("seeding:different-seeds"); out.cell("seeding:two-encryptions"); out.cell("seeding:multi-word-seed");
     out.sample(J().s("mode", "seeding").u("seed", s1).u("secret_export_bytes", a.size()));
 }
